@@ -204,6 +204,11 @@ mut("operator_node_built_as_fast_operator", ["C01"], "parser.buildParentNode/pos
     [("parser.go", "\t\tnode: &node{\n\t\t\tflag:     operator,\n\t\t\tvalue:    car.val,", "\t\tnode: &node{\n\t\t\tflag:     fastOperator,\n\t\t\tvalue:    car.val,")], "operator nodes are born as fast operators whatever their operands")
 mut("end_if_marker_shares_condition_closure", ["C01"], "fi-always-jumps",
     [("parser.go", "\t\t\t\toperator: func(_ *Ctx, _ []Value) (Value, error) {\n\t\t\t\t\treturn true, nil\n\t\t\t\t},", "\t\t\t\toperator: func(_ *Ctx, ps []Value) (Value, error) {\n\t\t\t\t\treturn len(ps) < 2, nil\n\t\t\t\t},")], "the end-if marker's jump depends on its arguments")
+mut("variable_node_without_its_key", ["C11"], "parser.parseVariable/post/variable-carries-name-and-registered-key",
+    [("parser.go", "\t\t\tflag:   variable,\n\t\t\tvalue:  t.val,\n\t\t\tvarKey: key,", "\t\t\tflag:   variable,\n\t\t\tvalue:  t.val,\n\t\t\tvarKey: key & 0xff,")], "keys above 255 are truncated in the variable node")
+mut("configured_constant_shadows_builtin", ["C01"], "parser.parseConst/post/constant-by-name",
+    [("parser.go", "\tif val, ok := builtinConstants[t.val]; ok {\n\t\tp.walk()\n\t\treturn p.valNode(val), nil\n\t}\n\n\tif val, ok := p.conf.ConstantMap[t.val]; ok {",
+      "\tif val, ok := p.conf.ConstantMap[t.val]; ok {\n\t\tp.walk()\n\t\treturn p.valNode(val), nil\n\t}\n\n\tif val, ok := builtinConstants[t.val]; ok {")], "a configured constant named true replaces the built-in")
 # ---- probes of mechanisms that only the bounded tier covers
 mut("reduce_nesting_merges_any_bool_operator", ["C02"], "bnd/",
     [("compiler.go", "\t\tif isAndOpNode(cn) == rootOpType {\n\t\t\tchildren = append(children, child.children...)", "\t\tif isAndOpNode(cn) == rootOpType || len(child.children) == 2 {\n\t\t\tchildren = append(children, child.children...)")], "a two-operand or inside an and (or vice versa) is flattened into its parent")
